@@ -233,8 +233,8 @@ def plans(tier):
         P["order.b"] = ([rec("hourly.H1.solar.seed5"), rec("hourly.H3.default.seed7"), {"do": "rng", "seed": 1}, rec("daily.D3.alpha20"), noise("hourly.H2.pv"),
                          rec("hourly.H2.seed7"), rec("daily.D2"), {"do": "garbage"}, rec("daily.D1"), rec("hourly.H3.explicit.seed7")], None)
         P["threads.daily"] = ([rec("daily.D1.alpha05"), rec("billing")], {"OMP_NUM_THREADS": "4", "MKL_NUM_THREADS": "4", "OPENBLAS_NUM_THREADS": "4", "NUMBA_NUM_THREADS": "4"})
-        for i in range(4):
-            P[f"concurrent.{i}"] = ([rec("hourly.H1.seed7"), rec("daily.D1.alpha05")], None)
+        for i in range(16):
+            P[f"concurrent.{i}"] = ([rec("hourly.H1.seed7")] + ([rec("daily.D1.alpha05")] if i < 4 else []), None)
     return P
 
 
@@ -257,12 +257,12 @@ def run(tier="quick", seed=0):
                 "real DailyModel / BillingModel / HourlyModel fits in worker processes: the same (meter, settings) fitted as the first act of a fresh process, after a "
                 "batch of other fits with other settings / supplemental columns / dropped models / garbage collection / global numpy+random generator use, twice in one "
                 "process, with OMP/MKL/OPENBLAS_NUM_THREADS=4 in the environment, under two PYTHONHASHSEED values (also a CalTRACK hourly fit)"
-                + ("; thorough: a batch of six meters in two orders, 4 concurrent worker processes, solar model" if tier == "thorough" else "")
+                + ("; thorough: a batch of six meters in two orders, 16 concurrent worker processes, solar model" if tier == "thorough" else "")
                 + ". Compared: sha256 of to_json() plus repr of every predicted / predicted_unc value. seeds 0, 5, 7. distinct = compared pair",
                 known_findings=load_known("C03"))
     P = plans(tier)
     results = {}
-    with ThreadPoolExecutor(max_workers=min(12, len(P))) as ex:
+    with ThreadPoolExecutor(max_workers=min(16, len(P))) as ex:
         futs = {nm: ex.submit(run_plan, plan, env) for nm, (plan, env) in P.items()}
         for nm, f in futs.items():
             try:
